@@ -8,7 +8,12 @@ PushClears(r)).  TLC checks MajorityEverywhere / SameView / ChecksumsAgree on th
 pass (M) and emits every configuration with the contents the property demands (G).
 harness/bind/aeb TestC11 writes each configuration straight into the nodes' own fragments of
 a real in-process cluster (replicas = nodes = R), runs Server.SyncData() on the initiator and
-reads every replica back (contents of both views, block checksums)."""
+reads every replica back (contents of both views, block checksums).
+spec/AntiEntropyHolder.tla adds the shard / owner dimension (holderSyncer.SyncHolder): 3 or 4
+nodes with ReplicaN = 2, four shards owned by ring slices that interleave with shards the
+initiator does not own; a pass must repair exactly the shards its node owns and leave the
+others as they were."""
+import concurrent.futures
 import os
 
 import vlib
@@ -28,25 +33,34 @@ def run(ctx):
                     "in-process cluster of test.MustNewCluster with ReplicaN = number of nodes (real HTTP between nodes)"]
     ctx.assumptions += ["every replica already has the view and the fragment (created by an ordinary replicated write); only contents diverge",
                         "one pass started on one initiator with no concurrent writes",
-                        "the view that does not diverge holds the same fixed bits on every replica"]
+                        "the view that does not diverge holds the same fixed bits on every replica",
+                        "holder-level cases: ReplicaN = 2 on 3 / 4 nodes, set field, standard view only; the placement is observed (API.ShardNodes) and must be a ring slice"]
 
-    plan = [("C11_r2", "bfs", None), ("C11_r3", "bfs" if thorough else "simulate", 300),
-            ("C11_r4", "simulate", 1500 if thorough else 40)]
-    first = None
-    for cfg, mode, num in plan:
+    plan = [("AntiEntropy", "C11_r2", "bfs", None), ("AntiEntropy", "C11_r3", "bfs" if thorough else "simulate", 300),
+            ("AntiEntropy", "C11_r4", "simulate", 1500 if thorough else 40),
+            # the shard / owner dimension: more nodes (3, 4) than replicas (2), four shards whose owners
+            # interleave with shards the initiator does not own; a pass repairs exactly the owned shards
+            ("AntiEntropyHolder", "C11_holder", "simulate", 1500 if thorough else 150)]
+
+    def gen(spec, cfg, mode, num):
         if mode == "bfs":
-            r = ctx.generate("AntiEntropy", cfg, mode="bfs", timeout=1500, workers=4)
-        else:
-            r = ctx.generate("AntiEntropy", cfg, mode="simulate", num=num, depth=40, timeout=900)
-        if first is None:
-            first = r
-        ctx.drive(PKG, "TestC11", beh=r.behaviours, label="C11/" + cfg, timeout=2400)
+            return ctx.generate(spec, cfg, mode="bfs", timeout=1500, workers=4)
+        return ctx.generate(spec, cfg, mode="simulate", num=num, depth=40, timeout=900)
 
-    # (M) sensitivity: the specification with a known defect switched on must violate its invariants
-    for cfg in ("C11_mc_clearsfromsets", "C11_mc_clearstostandard"):
-        m = ctx.modelcheck("AntiEntropy", cfg, mode="simulate", num=400, depth=40, timeout=600)
-        if not m.violation:
-            ctx.inconclusive.append("%s: the defect variant of the specification satisfies every invariant (spec insensitive)" % cfg)
+    # TLC runs side by side with the harness build and with the cluster runs (most of a small
+    # TLC run is JVM start-up)
+    with concurrent.futures.ThreadPoolExecutor(max_workers=3) as ex:
+        futs = [(cfg, ex.submit(gen, spec, cfg, mode, num)) for spec, cfg, mode, num in plan]
+        # (M) sensitivity: the specification with a known defect switched on must violate its invariants
+        sens = [(cfg, ex.submit(ctx.modelcheck, "AntiEntropy", cfg, mode="simulate", num=400, depth=40, timeout=600))
+                for cfg in ("C11_mc_clearsfromsets", "C11_mc_clearstostandard")]
+        ctx.binary(PKG)
+        for cfg, fu in futs:
+            r = fu.result()
+            ctx.drive(PKG, "TestC11", beh=r.behaviours, label="C11/" + cfg, timeout=2400)
+        for cfg, fu in sens:
+            if not fu.result().violation:
+                ctx.inconclusive.append("%s: the defect variant of the specification satisfies every invariant (spec insensitive)" % cfg)
 
     # binding self-test: one falsified expected bit per case must be reported for every case
     n0, v0, e0, t0 = len(ctx.failures), ctx.validated, ctx.evaluations, ctx.nontrivial
